@@ -190,6 +190,17 @@ fn check_scalar(sa: bool, a: &[u64], s: i128) -> Verdict {
         }
         uforms!(u8, u16, u32, u64, usize, u128);
     }
+    // u128 scalars with the top bit set (not representable as i128): reinterpret a negative scalar's bits
+    if s < 0 {
+        let v = s as u128;
+        let wantu = ra.mag.mul(&crate::refint::Nat::from_u128(v));
+        let wanti = RefInt::new(ra.neg, wantu.clone());
+        ctx(must_return("a * s", || &u * v).and_then(|r| eq_bu(&r, &wantu)), "&BigUint * u128 (>= 2^127)")?;
+        ctx(must_return("s * a", || v * &u).and_then(|r| eq_bu(&r, &wantu)), "u128 (>= 2^127) * &BigUint")?;
+        ctx(must_return("a *= s", || { let mut t = u.clone(); t *= v; t }).and_then(|r| eq_bu(&r, &wantu)), "BigUint *= u128 (>= 2^127)")?;
+        ctx(must_return("a * s", || &x * v).and_then(|r| eq_bi(&r, &wanti)), "&BigInt * u128 (>= 2^127)")?;
+        ctx(must_return("a *= s", || { let mut t = x.clone(); t *= v; t }).and_then(|r| eq_bi(&r, &wanti)), "BigInt *= u128 (>= 2^127)")?;
+    }
     let m = s.unsigned_abs();
     Ok(Info::new(!ra.is_zero() && m >= 2)
         .class("scalar_forms")
@@ -204,18 +215,22 @@ const SHORT_TOOM: [usize; 10] = [257, 258, 259, 260, 300, 383, 384, 385, 512, 51
 
 /// (shorter length, relation, residue) -> longer length
 fn longer(x: usize, rel: u8, extra: usize) -> usize {
-    match rel % 6 {
+    match rel % 9 {
         0 => x + extra,                 // < 2x (equal .. +5)
         1 => 2 * x - 1 - extra.min(x - 1).min(3), // just below 2x
         2 => 2 * x,                     // = 2x
         3 => 2 * x + 1 + extra,         // > 2x
         4 => 3 * x + extra,
-        _ => x,                         // equal
+        5 => x,                         // equal
+        // strongly unbalanced: nested half-splits, half-Karatsuba feeding Karatsuba/Toom-3 at odd offsets
+        6 => 4 * x + extra,
+        7 => 8 * x + 2 * extra + 1,
+        _ => 15 * x + extra,
     }
 }
 
 fn sized_pair(shorts: &'static [usize], cap: usize) -> BoxedStrategy<(Vec<u64>, Vec<u64>)> {
-    (select(shorts.to_vec()), 0u8..6, 0usize..6, any::<u8>(), any::<u64>(), any::<u8>(), any::<u64>(), any::<bool>())
+    (select(shorts.to_vec()), 0u8..9, 0usize..6, any::<u8>(), any::<u64>(), any::<u8>(), any::<u64>(), any::<bool>())
         .prop_map(move |(x, rel, extra, ka, sa, kb, sb, swap)| {
             let y = longer(x, rel, extra).min(cap.max(x));
             let a = fix_top(gen::expand(ka, sa, x));
@@ -267,6 +282,39 @@ fn kara_sign_pair() -> BoxedStrategy<(Vec<u64>, Vec<u64>)> {
         .boxed()
 }
 
+/// operands whose thirds are sized to make Toom-3's evaluation points negative (x2 - x1 + x0 < 0, the
+/// w(-2) factors negative), zero, or to leave the top third short / the middle third empty
+fn toom_sign_pair() -> BoxedStrategy<(Vec<u64>, Vec<u64>)> {
+    (86usize..=200, 0u8..6, 0u8..6, any::<u64>(), any::<u8>(), 0usize..3)
+        .prop_map(|(third, cx, cy, seed, kind, short_top)| {
+            // thirds: small = a few low digits set, big = all digits from the expansion with a MAX top digit
+            let part = |s: u64, big: bool, len: usize| {
+                let mut v = gen::expand(kind, seed ^ s, len);
+                if big {
+                    if let Some(t) = v.last_mut() { *t = MAX; }
+                } else {
+                    for d in v.iter_mut().skip(1) { *d = 0; }
+                }
+                v
+            };
+            let build = |c: u8, s: u64, top_len: usize| {
+                // (x0, x1, x2) magnitudes: which parts are big decides the signs of x2 - x1 + x0 and 4x2 - 2x1 + x0
+                let (b0, b1, b2) = match c { 0 => (false, true, false), 1 => (true, false, true), 2 => (false, true, true), 3 => (true, true, false), 4 => (false, false, true), _ => (true, true, true) };
+                let mut v = part(s, b0, third);
+                v.extend(part(s + 1, b1, third));
+                let mut top = part(s + 2, b2, top_len.max(1));
+                if *top.last().unwrap() == 0 { *top.last_mut().unwrap() = 1; }
+                v.extend(top);
+                v
+            };
+            // y decides the split size i = y.len()/3 + 1; x may have a short or (nearly) empty top third
+            let y = build(cy, 100, third);
+            let x = build(cx, 200, [third, third / 3, 1][short_top]);
+            (x, y)
+        })
+        .boxed()
+}
+
 fn with_low_zeros(p: BoxedStrategy<(Vec<u64>, Vec<u64>)>) -> BoxedStrategy<(Vec<u64>, Vec<u64>)> {
     (p, 0usize..40, 0usize..40, any::<bool>(), any::<bool>())
         .prop_map(|((a, b), za, zb, da, db)| {
@@ -292,13 +340,16 @@ pub fn mul_pair(tier: Tier) -> BoxedStrategy<(Vec<u64>, Vec<u64>)> {
         10 => (vec(gen::digit(), 1..=34), any::<u16>()).prop_map(|(mut v, i)| { let n = v.len(); let p = gen::idx(i, n); for x in v.iter_mut().skip(p) { *x = 0; } v.push(1); (v.clone(), v) }),
     ];
     let kara = prop_oneof![
-        45 => sized_pair(&SHORT_KARA, 800),
+        35 => sized_pair(&SHORT_KARA, 800),
+        10 => sized_pair(&SHORT_KARA, 4000),
         25 => kara_sign_pair(),
         15 => (33usize..=256).prop_map(|k| (vec![MAX; k], vec![MAX; k])),
         15 => with_low_zeros(sized_pair(&SHORT_KARA, 600)),
     ];
     let toom = prop_oneof![
-        60 => sized_pair(&SHORT_TOOM, 1600),
+        45 => sized_pair(&SHORT_TOOM, 1600),
+        15 => sized_pair(&SHORT_TOOM, 8000),
+        15 => toom_sign_pair(),
         20 => (257usize..=600).prop_map(|k| (vec![MAX; k], vec![MAX; k])),
         20 => with_low_zeros(sized_pair(&SHORT_TOOM, 1200)),
     ];
@@ -319,12 +370,12 @@ impl Property for C02 {
         "C02"
     }
     fn rule(&self) -> &'static str {
-        "Cases are operand pairs for BigUint (mul.u), BigInt with all sign pairs (mul.i) and scalar forms (mul.s: every primitive type that can hold the scalar, both sides, val/ref, op-assign). Shorter lengths come from {1,2,3,..,30..34,40} (long), {33..35,48,63..66,127..129,200,255,256} (Karatsuba) and {257..260,300,383..385,512,513} (Toom-3); the longer length is the shorter + 0..5, just below 2x, = 2x, > 2x, 3x, so every residue mod 2 and mod 3 and both sides of the half-Karatsuba condition occur; digit content is expanded from eight pattern kinds (special alphabet, uniform, all ones, bit runs, sparse, zero/MAX blocks, dense, MAX/MAX-1/1/2^63 mix) plus all-ones squares of every length, halves ordered to force each sign of the Karatsuba middle term (Plus, Minus, NoSign), and 0..39 low zero digits on either operand. Oracle: exact RefInt schoolbook product when the shorter operand has <= 600 digits, and always three modular fingerprints (61-bit primes, u128 arithmetic); thorough adds operands up to 16384 digits (fingerprints only). 9 forms per pair. Non-trivial: both operands >= 2 digits."
+        "Cases are operand pairs for BigUint (mul.u), BigInt with all sign pairs (mul.i) and scalar forms (mul.s: every primitive type that can hold the scalar, both sides, val/ref, op-assign). Shorter lengths come from {1,2,3,..,30..34,40} (long), {33..35,48,63..66,127..129,200,255,256} (Karatsuba) and {257..260,300,383..385,512,513} (Toom-3); the longer length is the shorter + 0..5, just below 2x, = 2x, > 2x, 3x, 4x, 8x, 15x (nested half-splits), so every residue mod 2 and mod 3 and both sides of the half-Karatsuba condition occur; digit content is expanded from eight pattern kinds (special alphabet, uniform, all ones, bit runs, sparse, zero/MAX blocks, dense, MAX/MAX-1/1/2^63 mix) plus all-ones squares of every length, halves ordered to force each sign of the Karatsuba middle term (Plus, Minus, NoSign), thirds sized to make the Toom-3 evaluation points negative / zero and to leave a short top third, and 0..39 low zero digits on either operand. Oracle: exact RefInt schoolbook product when the shorter operand has <= 600 digits, and always three modular fingerprints (61-bit primes, u128 arithmetic); thorough adds operands up to 16384 digits (fingerprints only). 9 forms per pair. Non-trivial: both operands >= 2 digits."
     }
     fn strategy(&self, tier: Tier) -> BoxedStrategy<Case> {
         let u = mul_pair(tier).prop_map(|(a, b)| Case::new("mul.u", vec![Arg::N(a), Arg::N(b)]));
         let i = (any::<bool>(), any::<bool>(), mul_pair(tier)).prop_map(|(sa, sb, (a, b))| Case::new("mul.i", vec![Arg::Z(sa, a), Arg::Z(sb, b)]));
-        let s = (any::<bool>(), gen::nat(6), gen::scalar_i128()).prop_map(|(sa, a, s)| Case::new("mul.s", vec![Arg::Z(sa, a), Arg::I(s)]));
+        let s = (any::<bool>(), prop_oneof![70 => gen::nat(6), 30 => gen::nat(60)], gen::scalar_i128()).prop_map(|(sa, a, s)| Case::new("mul.s", vec![Arg::Z(sa, a), Arg::I(s)]));
         let s2 = (any::<bool>(), gen::nat(6), 0u32..127, any::<bool>()).prop_map(|(sa, a, k, n)| {
             let v = 1i128 << k;
             Case::new("mul.s", vec![Arg::Z(sa, a), Arg::I(if n { -v } else { v })])
